@@ -340,9 +340,8 @@ def check_c13(tier, t0):
     traces = os.path.join(wd, "traces.ndjson")
     out = os.path.join(wd, "out.json")
     args = ["validate", "--walks", walks, "--traces", traces, "--out", out, "--policies", "3" if tier == "thorough" else "2"]
-    rule_texts = os.path.join(common_work(), "C04-%s" % tier, "rule_messages.ndjson")
-    if os.path.exists(rule_texts):
-        args += ["--texts", rule_texts]
+    rule_texts, nrules, mcr, _ = gen_rule_messages(wd)
+    args += ["--texts", rule_texts]
     run_harness(args)
     s = json.load(open(out))
     tv = msglevel.validate_traces(wd, traces, cfg="ValidateTrace.cfg", module="ValidateTrace.tla")
@@ -355,14 +354,14 @@ def check_c13(tier, t0):
     log("[C13] %d messages (%d with errors, %d with several), %d call-history lines explained, %d flagged" %
         (s["messages"], s["with_errors"], s["with_several_errors"], tv["lines"], len(tv["results"])))
     cov = {
-        "states": mc["distinct"] + mcw["distinct"] + tv["states"],
-        "transitions": mc["generated"] + mcw["generated"] + tv["generated"],
+        "states": mc["distinct"] + mcw["distinct"] + mcr["distinct"] + tv["states"],
+        "transitions": mc["generated"] + mcw["generated"] + mcr["generated"] + tv["generated"],
         "traces_validated_against_impl": s["messages"],
         "trace_events_explained": tv["lines"],
         "evaluations": s["messages"], "distinct_nontrivial": s["with_errors"],
         "rule": "every unmutated layout walk (x content policies) of all 30 types%s; per message a history of 7 validation calls "
                 "(both modes twice, message-level, wrapper, plugin) in one of 6 orders; non-trivial = the message violates at least "
-                "one network rule" % (" plus the C04 rule-enumeration messages" if os.path.exists(rule_texts) else ""),
+                "one network rule" % (" plus the %d rule-enumeration messages of Rules.tla" % nrules),
         "samples": s["samples"] or [{"note": "no message with several errors"}],
         "messages_with_several_errors": s["with_several_errors"],
         "exhaustive": False,
@@ -546,3 +545,55 @@ def check_c05(tier, t0):
 
 
 CHECKS["C05"] = check_c05
+
+
+# ------------------------------------------------------------------------------------------------
+# C04  network validation rules
+# ------------------------------------------------------------------------------------------------
+def gen_rule_messages(wd):
+    """Rules.tla fact vectors -> messages; returns (texts file, #cases, TLC stats, harness summary)."""
+    from common import run_tlc, tlc_require_clean, extract_json_lines
+    mc = run_tlc("MC_Rules.tla", "Rules.cfg", wd, timeout=1800)
+    if mc["violated"]:
+        raise ToolError("design-level invariant %s violated in Rules.tla" % mc["violated"])
+    tlc_require_clean(mc, "Rules")
+    cases = os.path.join(wd, "rule_cases.ndjson")
+    n = extract_json_lines(mc["out_path"], cases)
+    os.remove(mc["out_path"])
+    out = os.path.join(wd, "rules_out.json")
+    texts = os.path.join(wd, "rule_messages.ndjson")
+    run_harness(["rules", "--cases", cases, "--out", out, "--texts", texts])
+    return texts, n, mc, json.load(open(out))
+
+
+def check_c04(tier, t0):
+    from common import workdir
+    wd = workdir("C04-%s" % tier)
+    texts, n, mc, s = gen_rule_messages(wd)
+    vio = [{"sig": v["sig"], "replay": v["replay"]} for v in s["violations"]]
+    nrej = sum(s["rejected_by_parser"].values())
+    log("[C04] %d fact vectors, %d validated (%d violate at least one rule), %d refused by the parser, %d mismatch signatures" %
+        (n, s["evaluated"], s["rule_violating_messages"], nrej, len(vio)))
+    if s["evaluated"] == 0:
+        raise ToolError("no rule case reached validation")
+    cov = {
+        "states": mc["distinct"], "transitions": mc["generated"], "traces_validated_against_impl": 0,
+        "evaluations": s["evaluated"], "distinct_nontrivial": s["rule_violating_messages"],
+        "rule": "fact vectors of Rules.tla (per type a union of cones: each rule's facts vary freely, the rest stays at a valid "
+                "baseline), each realised as a message, parsed and validated; compared: set of reported codes vs Expected; "
+                "non-trivial = the vector violates at least one documented rule",
+        "samples": s["samples"] or [{}],
+        "types_covered": sorted(s["per_type"].keys()),
+        "types_not_covered": ["101", "104", "107 (rules documented only as 'complex dependencies': not transcribed)",
+                              "196", "296", "200 (T80 guideline rule)", "292 (parser refuses the only violating shape)"],
+        "codes_reported": s["codes_reported"],
+        "refused_by_parser": s["rejected_by_parser"],
+        "exhaustive": True, "exhaustive_scope": "the cones of Rules.tla",
+    }
+    assumptions = ["reference rules = the rule texts quoted in the library's doc comments / rule descriptions (SR2025 wording)",
+                   "MT910 C1 is taken as the library documents it (at least one of 50a / 52a; both allowed)",
+                   "sets of codes are compared, not multiplicities"]
+    return report("C04", tier, "model_checking", vio, cov, assumptions, t0)
+
+
+CHECKS["C04"] = check_c04
